@@ -147,3 +147,28 @@ theorem step_svc (s : St) (io : IOSt) (f : Byte)
   simp (config := { decide := true })
 
 end Hex.Isa
+
+namespace Hex.Rtl
+open Hex
+
+/-- The property's side condition "addresses lie in the range both implementations provide",
+    for register file `s` about to execute byte `f`:
+    the fetch address and every branch target actually taken are byte addresses below 800000,
+    the LDAP result is a byte address below 800000, every data access is to a word below 200000.
+    Outside it the 21-bit `pc`/19-bit data address of the RTL and the 32-bit ISA differ. -/
+def InRangeRegs (s : Isa.RegFile) (f : Byte) : Prop :=
+  let o' := Isa.opnd s.o f
+  let k := Isa.opc f
+  let t := s.pc + 1#32 + o'
+  s.pc < 800000#32 ∧
+  (Isa.isMem f = true → Isa.effAddr s.a s.b s.o f < 200000#32) ∧
+  (k = 5#8 → t < 800000#32) ∧
+  (k = 9#8 → t < 800000#32) ∧
+  (k = 10#8 → s.a = 0#32 → t < 800000#32) ∧
+  (k = 11#8 → BitVec.slt s.a 0#32 = true → t < 800000#32) ∧
+  (k = 13#8 → o' = 0#32 → s.b < 800000#32)
+
+instance (s : Isa.RegFile) (f : Byte) : Decidable (InRangeRegs s f) := by
+  unfold InRangeRegs; infer_instance
+
+end Hex.Rtl
